@@ -347,3 +347,22 @@ Definition parse_dec (s : bytes) : option dec :=
     | Some f => match frac_digits f with Some r => Some {| d_neg := neg; d_int := n; d_frac := r |} | None => None end
     end
   end.
+
+(* ---------- batched SQL export (BatchSqlExportWriter.WriteSqlRow) ----------
+   Rows are appended to the current INSERT statement; a row that arrives when the statement already
+   holds [n] tuples ends it and starts the next one with that row.  [cur] is the open statement
+   (reversed), [k] its remaining capacity. *)
+Section Chunks.
+  Context {A : Type}.
+  Variable n : nat.
+  Fixpoint chunk_go (l : list A) (cur : list A) (k : nat) : list (list A) :=
+    match l with
+    | [] => match cur with [] => [] | _ => [rev cur] end
+    | x :: t =>
+      match k with
+      | O => rev cur :: chunk_go t [x] (n - 1)
+      | S k' => chunk_go t (x :: cur) k'
+      end
+    end.
+  Definition chunks (l : list A) : list (list A) := chunk_go l [] n.
+End Chunks.
